@@ -141,8 +141,13 @@ TreeSet_pop(BTree* self, PyObject* args)
 
     key = BTree_minKey(self, args); /* reuse existing empty tuple */
     if (!key) {
-        PyErr_Clear();
-        PyErr_SetString(PyExc_KeyError, "pop(): empty tree.");
+        /* minKey() says ValueError for an empty container; any other
+         * failure (the node could not be loaded, ...) is not emptiness.
+         */
+        if (PyErr_ExceptionMatches(PyExc_ValueError)) {
+            PyErr_Clear();
+            PyErr_SetString(PyExc_KeyError, "pop(): empty tree.");
+        }
         return NULL;
     }
 
